@@ -38,12 +38,7 @@ variable {K : Type} [Field K] [LinearOrder K] [Transc K]
 @[simp] theorem dual_gt (a b : Dual K) : Scalar.gt a b = decide (b.re < a.re) := rfl
 @[simp] theorem dual_eps_re : (Scalar.eps : Dual K).re = Transc.eps := rfl
 @[simp] theorem dual_eps_du : (Scalar.eps : Dual K).du = 0 := dual_nat_du 0
-@[simp] theorem dual_abs_re [IsStrictOrderedRing K] (a : Dual K) : (Scalar.abs a).re = |a.re| := by
-  show (if Scalar.lt a.re (Scalar.ofNat 0) then (⟨-a.re, -a.du⟩ : Dual K) else a).re = |a.re|
-  simp only [scalar_lt, scalar_ofNat, Nat.cast_zero]
-  by_cases h : a.re < 0
-  · simp [h, abs_of_neg h]
-  · simp [h, abs_of_nonneg (not_lt.mp h)]
+@[simp] theorem dual_abs_re [IsStrictOrderedRing K] (a : Dual K) : (Scalar.abs a).re = |a.re| := rfl
 @[simp] theorem dual_lift_re (a : K) : (Dual.lift a).re = a := rfl
 @[simp] theorem dual_lift_du (a : K) : (Dual.lift a).du = 0 := by
   show (Scalar.nat 0 : K) = 0
